@@ -20,11 +20,17 @@ META = {
         "private results refused) on every tree whose tables have unique names, and only operations "
         "Resolves admits on every tree; the dict-based cached resolver (last duplicate wins) equals the "
         "direct one on every verified tree; the (repaired) traits resolver equals the direct one on every "
-        "tree; get_nearest_symbol_table returns the innermost table of the ancestor chain. The model is "
+        "tree; get_nearest_symbol_table returns the innermost table of the ancestor chain; no entry point "
+        "(direct, cached incl. the dict of SymbolTable.__init__, traits, verify) uses anything of a name but "
+        "equality: respelling tree and reference by any injective map leaves every answer unchanged "
+        "(rename_*, spelling_irrelevant), which is what lets one numbered model judge the real string-keyed "
+        "code under arbitrary spellings (empty, blank, case/width variants, digits, reserved words, `::`, `@`, "
+        "canonically equivalent unicode, NUL, prefixes, attribute names). The model is "
         "tied to /repo by building every generated tree from real builtin.module / gpu.module / func.func / "
         "test ops and comparing, for every operation and every flat/nested reference, all entry points "
         "(utils.SymbolTable.lookup_symbol_in[all_symbols], lookup_nearest_symbol_from, "
-        "get_nearest_symbol_table, SymbolTableCollection shared/fresh, traits.SymbolTable.lookup_symbol, "
+        "get_nearest_symbol_table, SymbolTableCollection shared/fresh, SymbolTable(op).lookup, "
+        "traits.SymbolTable.lookup_symbol, "
         "Operation.verify) with the Lean driver line by line, and with an independent reference resolver "
         "written from the property sentence."
     ),
@@ -38,7 +44,9 @@ META = {
         "for being private (only results reached through a nested component are); when a consulted table "
         "holds two symbols with the requested name (module does not verify) any of the designated operations "
         "or 'nothing' is accepted; traits.lookup_symbol raising its documented ValueError when no ancestor is "
-        "a symbol table counts as 'nothing'. Excluded: unregistered operations, tables with several "
+        "a symbol table counts as 'nothing'; every Python str is a legal symbol name (the empty string included: "
+        "it verifies, prints as @\"\" and parses back) and two names are the same name iff the strings are equal "
+        "(no case folding, stripping or unicode normalisation). Excluded: unregistered operations, tables with several "
         "regions/blocks, symbol ops without sym_name, invalid sym_visibility strings, IR mutation between "
         "cached lookups (the cache is modelled as a function of the unchanged tree)."
     ),
@@ -48,11 +56,15 @@ META = {
         "{module unnamed/@0/@1 × public/private, func @0/@1 × public/private, plain op, plain op with a decoy sym_name=@0} (terminators added "
         "where the verifier needs them), then seeded random trees of 2–40 operations (modules, gpu.module, "
         "func.func with public/private/nested/absent visibility, test.op_with_symbol, test.op with decoy "
-        "sym_name, multi-region/multi-block plain ops, duplicate names inside and across tables). References: "
+        "sym_name, multi-region/multi-block plain ops, duplicate names inside and across tables). Names are "
+        "numbered; a tree is built with the numbers spelled s0, s1, … and again (all trees with ≤2 operations under "
+        "each of 13 fixed spellings, a seed-rotated third of the 3-operation trees under one of them, thorough: "
+        "each under two; half of the random trees under a random spelling) with pairwise distinct awkward strings "
+        "from 10 families of mutually confusable names, the empty string in every position. References: "
         "all flat names as str/StringAttr/SymbolRefAttr, all depth-1 and depth-2 nested references over the "
         "name pool (exhaustive part), valid symbol paths of the tree plus perturbed/extended/truncated/random "
         "ones (random part). Non-trivial = the reference has a nested component, or the start operation is not "
-        "the root, and the root name occurs somewhere in the tree. Distinct = distinct (tree, start, form, "
+        "the root, and the root name occurs somewhere in the tree. Distinct = distinct (tree, spelling, start, form, "
         "reference)."
     ),
     "trusted_base": [
@@ -126,11 +138,73 @@ def finalize(root: Node) -> list[Node]:
     return nodes
 
 
-def sym_str(name: int) -> str:
+def sym_str(name: int, spell: Any = None) -> str:
+    """the sym_name string of name number `name` under the spelling `spell` (None = s0, s1, …)"""
+    if spell is not None and name < len(spell):
+        return spell[name]
     return f"s{name}"
 
 
-def build_op(n: Node) -> Any:
+# Name spellings.  The resolvers, the Lean model and the property sentence treat a symbol name as an
+# opaque token that is only ever compared for equality (Lean: `rename_*` theorems — every entry point
+# commutes with an injective renaming).  The real code works on Python strings, so every tree is also
+# built with the numbered names spelled as strings that are equal only to themselves but that string
+# handling shortcuts confuse: falsy/blank, case/whitespace variants, digit strings, reserved words,
+# the reference separator, the printed sigil, canonically equivalent unicode, embedded NUL, prefixes,
+# attribute names.  A spelling is a tuple of pairwise distinct strings (name number -> string).
+NAME_FAMILIES: list[list[str]] = [
+    ["", " ", "  ", "\t", "\n", "_", "-"],
+    ["a", "A", "a ", " a", "\uff41", "aa", "Aa"],
+    ["0", "00", "-0", "0.0", "1", "01", "0x0"],
+    ["None", "none", "null", "False", "True", "nan", "NONE"],
+    ["a::b", "a", "b", "::", "a::", "::b", "a:b"],
+    ["@a", "a", "@", "\"a\"", "@\"a\"", "@@a", "a@"],
+    ["\u00e9", "e\u0301", "e", "\u00c9", "E\u0301", "\u00e9\u0301", "e\u0301\u0301"],
+    ["x", "x\x00", "x\x00y", "\x00", "x\x00\x00", "\x00x", "xy"],
+    ["s1", "s10", "s01", "s", "s1_0", "s1 ", "S1"],
+    ["sym_name", "sym_visibility", "private", "public", "nested", "builtin.module", "func.func"],
+]
+
+
+def small_spellings() -> list[tuple[str, ...]]:
+    """fixed spellings of the three name numbers of the small scope (0 and 1 occur in trees, 2 only in
+    references): the empty string in each position, then the first three strings of every family"""
+    out: list[tuple[str, ...]] = [("", "s1", "s2"), ("s0", "", "s2"), ("s0", "s1", "")]
+    out += [tuple(f[:3]) for f in NAME_FAMILIES]
+    return out
+
+
+def random_spelling(rng: Any, count: int) -> tuple[str, ...]:
+    """`count` pairwise distinct strings: mostly from one family (confusable with each other), the empty
+    string in about a third of the spellings"""
+    fam = list(rng.choice(NAME_FAMILIES))
+    rng.shuffle(fam)
+    extra = [x for f in rng.sample(NAME_FAMILIES, 3) for x in f]
+    rng.shuffle(extra)
+    out: list[str] = []
+    if rng.random() < 0.3:
+        out.append("")
+    for x in fam + extra:
+        if len(out) >= count:
+            break
+        if x not in out:
+            out.append(x)
+    i = 0
+    while len(out) < count:  # never needed with the families above; keeps the spelling total
+        if f"n{i}" not in out:
+            out.append(f"n{i}")
+        i += 1
+    rng.shuffle(out)
+    return tuple(out)
+
+
+def check_spelling(spell: Any, count: int) -> None:
+    names = [sym_str(i, spell) for i in range(count)]
+    if len(set(names)) != len(names):
+        raise core.InfraError(f"spelling is not injective: {names!r}")
+
+
+def build_op(n: Node, spell: Any = None) -> Any:
     """the real xDSL operation for a spec node"""
     from xdsl.dialects import gpu
     from xdsl.dialects.builtin import FunctionType, ModuleOp, StringAttr
@@ -138,22 +212,22 @@ def build_op(n: Node) -> Any:
     from xdsl.dialects.test import TestOp, TestSymbolOp, TestTermOp
     from xdsl.ir import Block, Region
 
-    regions = [Region([Block([build_op(c) for c in b]) for b in r]) for r in n.regions]
+    regions = [Region([Block([build_op(c, spell) for c in b]) for b in r]) for r in n.regions]
     attrs: dict[str, Any] = {}
     if n.vis is not None and n.kind != "func":
         attrs["sym_visibility"] = StringAttr(n.vis)
     if n.kind == "mod":
-        op = ModuleOp(regions[0], attrs, StringAttr(sym_str(n.name)) if n.name is not None else None)
+        op = ModuleOp(regions[0], attrs, StringAttr(sym_str(n.name, spell)) if n.name is not None else None)
     elif n.kind == "gmod":
-        op = gpu.ModuleOp.build(properties={"sym_name": StringAttr(sym_str(n.name))}, regions=regions, attributes=attrs)
+        op = gpu.ModuleOp.build(properties={"sym_name": StringAttr(sym_str(n.name, spell))}, regions=regions, attributes=attrs)
     elif n.kind == "func":
-        op = FuncOp(sym_str(n.name), FunctionType.from_lists([], []), regions[0] if regions else Region([]),
+        op = FuncOp(sym_str(n.name, spell), FunctionType.from_lists([], []), regions[0] if regions else Region([]),
                     visibility=n.vis)
     elif n.kind == "sym":
-        op = TestSymbolOp(properties={"sym_name": StringAttr(sym_str(n.name))}, attributes=attrs, regions=regions)
+        op = TestSymbolOp(properties={"sym_name": StringAttr(sym_str(n.name, spell))}, attributes=attrs, regions=regions)
     elif n.kind == "op":
         if n.name is not None:
-            attrs["sym_name"] = StringAttr(sym_str(n.name))  # decoy: not a symbol op
+            attrs["sym_name"] = StringAttr(sym_str(n.name, spell))  # decoy: not a symbol op
         op = TestOp(attributes=attrs, regions=regions)
     elif n.kind == "term":
         op = TestTermOp()
@@ -231,12 +305,17 @@ def ref_resolve(start: Node, names: list[int], need_table: bool = True, refuse_p
 class Impl:
     """One generated tree built from real ops, with all entry points."""
 
-    def __init__(self, root: Node):
+    def __init__(self, root: Node, spell: Any = None):
         from xdsl.utils.exceptions import VerifyException
 
         self.root = root
+        self.spell = tuple(spell) if spell is not None else None
         self.nodes = finalize(root)
-        build_op(root)
+        top = 1 + max([n.name for n in self.nodes if n.name is not None], default=0)
+        self.checked = max(top, len(self.spell or ()))
+        check_spelling(self.spell, self.checked)
+        self.number = {sym_str(i, self.spell): i for i in range(self.checked)}
+        build_op(root, self.spell)
         self.ids = {id(n.op): n.id for n in self.nodes}  # identity map, never leaves this object
         try:
             root.op.verify()
@@ -269,27 +348,33 @@ class Impl:
 
         try:
             nm = get_name_if_symbol(n.op)
-            name = "none" if nm is None else (nm[1:] if nm.startswith("s") and nm[1:].isdigit() else "?" + nm)
+            name = "none" if nm is None else str(self.number[nm]) if nm in self.number else "?" + repr(nm)
             vis = VIS_TOKEN[str(SymbolTable.get_symbol_visibility(n.op))]
             tbl = n.op.has_trait(traits.SymbolTable, value_if_unregistered=False)
             return f"id={self.ids[id(n.op)]} table={'true' if tbl else 'false'} name={name} vis={vis}"
         except Exception as e:  # noqa: BLE001
             return "raise:" + core.exc_name(e)
 
-    _symbols: dict[tuple[str, tuple[int, ...]], Any] = {}
+    _symbols: dict[tuple[str, tuple[str, ...]], Any] = {}
 
     def symbol(self, form: str, names: list[int]) -> Any:
         from xdsl.dialects.builtin import StringAttr, SymbolRefAttr
 
-        key = (form, tuple(names))
+        if max(names) >= self.checked:  # a reference to a name number beyond the spelled ones
+            self.checked = max(names) + 1
+            check_spelling(self.spell, self.checked)
+        strs = tuple(sym_str(x, self.spell) for x in names)
+        key = (form, strs)
         sym = Impl._symbols.get(key)
         if sym is None:
             if form == "s":
-                sym = sym_str(names[0])
+                sym = strs[0]
             elif form == "a":
-                sym = StringAttr(sym_str(names[0]))
+                sym = StringAttr(strs[0])
             else:
-                sym = SymbolRefAttr(sym_str(names[0]), [sym_str(x) for x in names[1:]])
+                sym = SymbolRefAttr(strs[0], list(strs[1:]))
+            if len(Impl._symbols) > 200_000:
+                Impl._symbols.clear()
             Impl._symbols[key] = sym
         return sym
 
@@ -311,12 +396,14 @@ class Impl:
             obs["da"] = self.call(SymbolTable.lookup_symbol_in, op, sym, all_symbols=True)
             obs["ci"] = self.call(self.shared.lookup_symbol_in, op, sym)
             obs["ca"] = self.call(SymbolTableCollection().lookup_symbol_in, op, sym, all_symbols=True)
+            # the cached table itself (SymbolTable.__init__ + lookup; its signature takes a plain name only)
+            obs["tl"] = self.call(lambda: SymbolTable(op).lookup(sym)) if form != "r" else "-"
         else:
-            obs.update(di="-", da="-", ci="-", ca="-")
+            obs.update(di="-", da="-", ci="-", ca="-", tl="-")
         return obs
 
 
-OBS_ORDER = ("near", "dn", "cn", "cf", "tr", "di", "da", "ci", "ca")
+OBS_ORDER = ("near", "dn", "cn", "cf", "tr", "di", "da", "ci", "ca", "tl")
 CALL_SITE = {
     "near": "xdsl.utils.symbol_table.SymbolTable.get_nearest_symbol_table",
     "dn": "xdsl.utils.symbol_table.SymbolTable.lookup_nearest_symbol_from",
@@ -327,8 +414,9 @@ CALL_SITE = {
     "ci": "xdsl.utils.symbol_table.SymbolTableCollection.lookup_symbol_in",
     "ca": "xdsl.utils.symbol_table.SymbolTableCollection.lookup_symbol_in",
     "tr": "xdsl.traits.SymbolTable.lookup_symbol",
+    "tl": "xdsl.utils.symbol_table.SymbolTable.lookup",
 }
-DIRECT_OF = {"cn": "dn", "cf": "dn", "ci": "di", "ca": "da"}
+DIRECT_OF = {"cn": "dn", "cf": "dn", "ci": "di", "ca": "da", "tl": "di"}
 
 
 def obs_line(obs: dict[str, str]) -> str:
@@ -355,7 +443,7 @@ def oracle(impl: Impl, n: Node, names: list[int], obs: dict[str, str]) -> list[t
     want = sorted({str(d.id) for d in designated})
     allowed = set(want) | ({"none"} if (ambiguous or not want) else set())
     expected = "|".join(sorted(allowed))
-    for key in ("dn", "cn", "cf", "tr", "di", "ci"):
+    for key in ("dn", "cn", "cf", "tr", "di", "ci", "tl"):
         r = obs[key]
         if r == "-":
             continue
@@ -389,7 +477,7 @@ def oracle(impl: Impl, n: Node, names: list[int], obs: dict[str, str]) -> list[t
             bad.append((key, "all_symbols list inconsistent with the single-result lookup", r, single))
     if impl.verified:
         for key, dkey in DIRECT_OF.items():
-            if obs[key] != obs[dkey]:
+            if obs[key] != obs[dkey] and obs[key] != "-":
                 bad.append((key, "cached lookup differs from direct lookup on a verified module", obs[key], obs[dkey]))
     return bad
 
@@ -586,7 +674,7 @@ class Batch:
     def __init__(self) -> None:
         self.lines: list[str] = []
         self.impl: list[str] = []
-        self.starts: list[tuple[int, Any]] = []  # (line index of `tree`, tree json)
+        self.starts: list[tuple[int, Any, Any]] = []  # (line index of `tree`, tree json, spelling)
 
     def add(self, line: str, obs: str) -> None:
         self.lines.append(line)
@@ -598,10 +686,14 @@ def names_in_tree(nodes: list[Node]) -> set[int]:
 
 
 def run_tree(ctx: core.Ctx, batch: Batch, root: Node, refs: list[tuple[str, list[int]]], tag: str,
-             start_nodes: list[Node] | None = None) -> None:
-    impl = Impl(root)
-    tree_key = json.dumps(root.to_json(), separators=(",", ":"))
-    batch.starts.append((len(batch.lines), root.to_json()))
+             start_nodes: list[Node] | None = None, spell: Any = None) -> None:
+    impl = Impl(root, spell)
+    tree_key = json.dumps([root.to_json(), spell], separators=(",", ":"))
+    if spell is not None:
+        ctx.count(f"{tag}.trees_respelled")
+        if "" in spell:
+            ctx.count(f"{tag}.trees_with_empty_name")
+    batch.starts.append((len(batch.lines), root.to_json(), spell))
     batch.add("tree " + " ".join(model_tokens(root)), "ok")
     batch.add("verify", impl.verify_obs)
     for n in impl.nodes:
@@ -627,12 +719,13 @@ def run_tree(ctx: core.Ctx, batch: Batch, root: Node, refs: list[tuple[str, list
             if (len(names) > 1 or n.parent is not None) and names[0] in present:
                 ctx.nt(hash((tree_key, n.path, form, tuple(names))))  # 64-bit key (PYTHONHASHSEED=0)
             for entry, sig, got, want in oracle(impl, n, names, obs):
-                report(ctx, root, n, form, names, entry, sig, got, want)
+                report(ctx, root, n, form, names, entry, sig, got, want, spell)
 
 
-def failing(root: Node, path: list[int], form: str, names: list[int], entry: str, sig: str) -> tuple[str, str] | None:
+def failing(root: Node, path: list[int], form: str, names: list[int], entry: str, sig: str,
+            spell: Any = None) -> tuple[str, str] | None:
     """re-evaluate one query on a fresh build; returns (observed, expected) when it still fails the same way"""
-    impl = Impl(root)
+    impl = Impl(Node.from_json(root.to_json()), spell)  # a copy: building sets Node.op, the caller's tree stays as is
     n = impl.nodes[0]
     try:
         for i in path:
@@ -646,7 +739,7 @@ def failing(root: Node, path: list[int], form: str, names: list[int], entry: str
     return None
 
 
-def shrink_case(root: Node, n: Node, form: str, names: list[int], entry: str, sig: str
+def shrink_case(root: Node, n: Node, form: str, names: list[int], entry: str, sig: str, spell: Any = None
                 ) -> tuple[Node, list[int], list[int]]:
     """greedy: drop operations (not on the path to the start op, re-deriving the path) while it still fails"""
     cur = Node.from_json(root.to_json())
@@ -680,40 +773,68 @@ def shrink_case(root: Node, n: Node, form: str, names: list[int], entry: str, si
                         b[:] = [x for x in b if x is not v]
             finalize(cand)
             new_path = list(cn[start.id].path)
-            if failing(cand, new_path, form, names, entry, sig) is not None:
+            if failing(cand, new_path, form, names, entry, sig, spell) is not None:
                 cur, path, changed = cand, new_path, True
                 break
     # shorten the reference from the right
-    while len(names) > 1 and failing(cur, path, form, names[:-1], entry, sig) is not None:
+    while len(names) > 1 and failing(cur, path, form, names[:-1], entry, sig, spell) is not None:
         names = names[:-1]
     return cur, path, names
 
 
+def shrink_spelling(root: Node, path: list[int], form: str, names: list[int], entry: str, sig: str,
+                    spell: Any) -> Any:
+    """the plain spelling when the failure does not depend on how the names are spelled, else as few
+    respelled names as possible (the others go back to s<i>)"""
+    if spell is None or failing(root, path, form, names, entry, sig, None) is not None:
+        return None
+    cur = list(spell)
+    for i in range(len(cur)):
+        cand = cur[:i] + [f"s{i}"] + cur[i + 1:]
+        if cand[i] == cur[i] or len(set(cand)) != len(cand):
+            continue
+        try:
+            if failing(root, path, form, names, entry, sig, cand) is not None:
+                cur = cand
+        except core.InfraError:
+            pass
+    return cur
+
+
 def report(ctx: core.Ctx, root: Node, n: Node, form: str, names: list[int], entry: str, sig: str,
-           got: str, want: str) -> None:
+           got: str, want: str, spell: Any = None) -> None:
     site = CALL_SITE[entry]
     path = list(n.path)
+    prev = next((f for f in ctx.failures if f.kind == "failing-input" and (f.call_site, f.signature) == (site, sig)),
+                None)
+    if prev is not None and len(json.dumps(prev.case)) <= len(json.dumps(root.to_json())) + 80:
+        return  # a witness of this class at least as small is already recorded (ctx.fail keeps the smallest)
     if len(list(root.walk())) > 6:
         # only shrink when no small witness of this class is known yet
         known_small = any(f.kind == "failing-input" and (f.call_site, f.signature) == (site, sig)
                           and len(json.dumps(f.case)) < 260 for f in ctx.failures)
         if known_small:
             return
-        root, path, names = shrink_case(root, n, form, names, entry, sig)
-        again = failing(root, path, form, names, entry, sig)
-        if again is not None:
-            got, want = again
+        root, path, names = shrink_case(root, n, form, names, entry, sig, spell)
+    if spell is not None:
+        spell = shrink_spelling(root, path, form, names, entry, sig, spell)
+    again = failing(root, path, form, names, entry, sig, spell)
+    if again is not None:
+        got, want = again
     case = {"tree": root.to_json(), "from": path, "form": form, "names": names, "entry": entry,
-            "text": render(root)}
-    ref = "@" + "::@".join(sym_str(x) for x in names)
+            "text": render(root, spell)}
+    if spell is not None:
+        case["spelling"] = list(spell)
+    ref = "::".join("@" + json.dumps(sym_str(x, spell), ensure_ascii=True) for x in names) if spell is not None \
+        else "@" + "::@".join(sym_str(x) for x in names)
     ctx.fail(site, sig, case,
              f"{site.rsplit('.', 1)[1]} from op at path {path_str(tuple(path))} with {ref} gave op `{got}`, "
              f"the nesting rules designate `{want}` ({sig})", got, want)
 
 
-def render(root: Node) -> str:
+def render(root: Node, spell: Any = None) -> str:
     try:
-        impl = Impl(Node.from_json(root.to_json()))
+        impl = Impl(Node.from_json(root.to_json()), spell)
         return str(impl.root.op)
     except Exception as e:  # noqa: BLE001
         return f"<unprintable: {core.exc_name(e)}>"
@@ -725,9 +846,10 @@ def flush(ctx: core.Ctx, batch: Batch) -> None:
     model = ctx.model("symbol_table", batch.lines)
     i = core.diff_streams(batch.impl, model)
     if i is not None:
-        j, tree = max((s for s in batch.starts if s[0] <= i), key=lambda s: s[0])
+        j, tree, spell = max((s for s in batch.starts if s[0] <= i), key=lambda s: s[0])
         ctx.mismatch("correspondence:C29/symbol_table",
-                     {"tree": tree, "lines": [batch.lines[j], batch.lines[i]]},
+                     {"tree": tree, "lines": [batch.lines[j], batch.lines[i]],
+                      **({"spelling": list(spell)} if spell is not None else {})},
                      [batch.impl[j], batch.impl[i]], [model[j], model[i]],
                      f"line `{batch.lines[i]}`: implementation `{batch.impl[i]}` vs Lean model `{model[i]}`")
     batch.lines.clear(); batch.impl.clear(); batch.starts.clear()
@@ -741,13 +863,27 @@ def run(ctx: core.Ctx) -> None:
     # 1. exhaustive small scope (smallest trees first: the first failure of a class is a minimal one)
     max_nodes = 3 if quick else 4
     complete = 0
+    spellings = small_spellings()
+    rot = ctx.rng.randrange(len(spellings))
     for k in range(1, max_nodes + 1):
         finished = True
-        for root in small_trees(k):
+        for idx, root in enumerate(small_trees(k)):
             if k > 3 and ctx.time_left() < 400:
                 finished = False
                 break
             run_tree(ctx, batch, root, refs, f"small{k}")
+            # the same tree with its names respelled: every fixed spelling up to 2 operations, a rotating
+            # share of them at 3 (quick: every third tree under one spelling, thorough: every tree under two)
+            if k <= 2:
+                respell = spellings
+            elif k == 3 and quick:
+                respell = [spellings[(idx // 3 + rot) % len(spellings)]] if idx % 3 == rot % 3 else []
+            elif k == 3:
+                respell = [spellings[(idx + rot) % len(spellings)], spellings[(idx * 5 + rot + 1) % len(spellings)]]
+            else:
+                respell = []
+            for sp in respell:
+                run_tree(ctx, batch, Node.from_json(root.to_json()), refs, f"small{k}", spell=sp)
             if len(batch.lines) > 150_000:
                 flush(ctx, batch)
         if not finished:
@@ -759,7 +895,10 @@ def run(ctx: core.Ctx) -> None:
         f"all ordered trees with ≤{min(complete, 3)} operations over {len(SMALL_LABELS)} labels"
         + (f" and all with 4 operations over {len(SMALL_LABELS_4)} labels" if complete >= 4 else "")
         + f" × all start operations × {len(refs)} references (flat in 3 forms, depth 1 over 3 names, depth 2 over "
-        "2 names; from start operations without enclosing table only depth ≤1); random beyond")
+        "2 names; from start operations without enclosing table only depth ≤1), names spelled s0/s1/s2; the trees "
+        f"with ≤2 operations also under each of {len(spellings)} awkward spellings of the three names (empty string "
+        "in each position, blank/case/digit/reserved-word/separator/sigil/unicode/NUL/prefix/attribute-name "
+        "families), a rotating share of the 3-operation trees under one of them; random beyond")
     # 2. random larger trees
     n_random = 260 if quick else 6000
     reserve = 12 if quick else 60
@@ -772,10 +911,12 @@ def run(ctx: core.Ctx) -> None:
         nodes = finalize(root)
         rrefs = random_refs(ctx.rng, nodes, pool, 14 if quick else 24)
         starts = nodes if len(nodes) <= 24 else ctx.rng.sample(nodes, 24)
-        run_tree(ctx, batch, root, rrefs, "random", starts)
+        spell = random_spelling(ctx.rng, pool + 1) if ctx.rng.random() < 0.5 else None
+        run_tree(ctx, batch, root, rrefs, "random", starts, spell)
         done += 1
         if done <= 2:
-            ctx.sample({"tree_text": render(root), "refs": [[f, ns] for f, ns in rrefs[:6]]})
+            ctx.sample({"tree_text": render(root, spell), "refs": [[f, ns] for f, ns in rrefs[:6]],
+                        "spelling": list(spell) if spell is not None else None})
         if len(batch.lines) > 150_000:
             flush(ctx, batch)
     flush(ctx, batch)
@@ -785,8 +926,11 @@ def run(ctx: core.Ctx) -> None:
 def replay(ctx: core.Ctx, body: dict) -> int:
     case = body["case"]
     root = Node.from_json(case["tree"])
-    impl = Impl(root)
+    spell = case.get("spelling")
+    impl = Impl(root, spell)
     print(impl.root.op)
+    if spell is not None:
+        print("names spelled :", {i: sym_str(i, spell) for i in range(len(spell))})
     print("verify:", impl.verify_obs)
     if "lines" in case:  # correspondence replay: [tree line, differing line]
         lines = case["lines"]
